@@ -509,6 +509,8 @@ def base_minimum(sc: dict) -> float:
         return float(sum(min(0.0, w) for w in o["weights"]))
     if o["family"] == "offset":
         return 1000.0
+    if o["family"] == "infpit":
+        return float("-inf")
     return 0.0
 
 
@@ -857,6 +859,12 @@ class Run:
         return True
 
     def _boundary(self, tree) -> None:
+        # one boundary per completed step: a second loop-head consultation without a step in between (manual stepping
+        # followed by run(), or head() called twice) is the same boundary, not a metaepoch in which nothing ran
+        # (a reloaded snapshot of the same moment counts as the same boundary too)
+        if getattr(self, "_last_boundary_m", None) == tree.metaepoch_count:
+            return
+        self._last_boundary_m = tree.metaepoch_count
         k = self.boundaries
         self.boundaries += 1
         for ch in self.checkers:
